@@ -10,3 +10,5 @@ pub mod cmd;
 pub mod format;
 pub mod import;
 pub mod one_based;
+#[cfg(okane_verif)]
+pub mod verif;
